@@ -427,6 +427,28 @@ int p_c17(void)
 			check(&g_m[1], 1); check(&g_m[0], 1);
 			end_sequence(); rep_case_done(1, 0, 1);
 		}
+		if (rep_case("scripted bulk operations on matrices that hold exactly 1023 / 1024 / 1025 / 2047 / 2048 / 2049 entries (full allocation blocks, empty free list)")) {
+			static const int cnts[] = { 1023, 1024, 1025, 2047, 2048, 2049 };
+			for (int ci = 0; ci < 6; ci++) for (int op = 0; op < 5; op++) {
+				led_reset(); m_alloc(0, 6, 9); m_alloc(1, 64, 64); m_alloc(2, 64, 64);
+				g_hint = NULL;
+				for (int x = 0; x < 7; x++) m_insert(0, (x * 5) % 6, (x * 4) % 9);
+				for (int x = 0; x < cnts[ci]; x++) m_insert(1, x % 64, (x / 64 + x * 3) % 64);       /* distinct positions, no deletion: the free list is empty at 1024*j */
+				rng_t rr = rng_make(7, (uint64_t)ci, (uint64_t)op);
+				switch (op) {
+				case 0: m_copy(0, 1); break;
+				case 1: m_copyrows(0, 1, &rr, 0); break;
+				case 2: m_copycols(0, 1, &rr, 0); break;
+				case 3: g_keep_dest = 1; m_copyrows(0, 1, &rr, 1); g_keep_dest = 0; break;
+				default: m_roundtrip(0, 1, &rr); break;
+				}
+				check(&g_m[1], 1); check(&g_m[0], 1);
+				m_insert(1, 63, 63); m_insert(1, 0, 1); check(&g_m[1], 1);
+				m_clear(1); check(&g_m[1], 1); m_insert(1, 5, 5); check(&g_m[1], 1);
+				end_sequence();
+			}
+			rep_case_done(1, 0, 1);
+		}
 		if (rep_case("scripted copy into a non-empty destination")) { led_reset(); m_alloc(0, 3, 4); m_alloc(1, 4, 5); for (int i = 0; i < 12; i++) m_insert(1, i % 4, i % 5); m_insert(0, 1, 2); m_insert(0, 2, 3); m_copy(0, 1); check(&g_m[1], 1); m_insert(1, 3, 4); m_insert(1, 0, 0); check(&g_m[1], 1); end_sequence(); rep_case_done(1, 0, 1); }
 	}
 	unit++;
